@@ -1,7 +1,11 @@
 #!/bin/bash
-# usage: seedtest.sh <PROP> <patch.diff> [other props...]  -- apply a seeded change to /repo, run the check(s), undo
+# usage: seedtest.sh <PROP> <patch.diff> [other props...]  -- apply a seeded change to /repo, run the check(s), undo.
+# Evidence and replay files written by the seeded runs are discarded (the committed ones must come from the unchanged tree).
 P=$1; PATCH=$2; shift; shift
-cd /repo && git apply "$PATCH" || { echo "patch does not apply"; exit 3; }
+SAVE=$(mktemp -d /tmp/seedtest.XXXXXX)
+cp -r /verif/evidence "$SAVE/evidence"; cp -r /verif/replays "$SAVE/replays"
+cd /repo && git apply "$PATCH" || { echo "patch does not apply"; rm -rf "$SAVE"; exit 3; }
 cd /verif
 for prop in $P "$@"; do ./check $prop quick 2>&1 | grep -E "VIOLATION|obligation:|MACHINERY|UNDECIDED|exit=" | head -8; done
-git -C /repo checkout -- . 
+git -C /repo checkout -- .
+rm -rf /verif/evidence /verif/replays; mv "$SAVE/evidence" /verif/evidence; mv "$SAVE/replays" /verif/replays; rm -rf "$SAVE"
